@@ -28,14 +28,72 @@ namespace Pyx12Verif.Envelope
 
 abbrev Str := List Char
 
-/-! ### Python `int(str)` on ASCII text (`X12Base._int`) -/
+/-! ### Python `int(str)` (`X12Base._int`), for every string
+
+CPython reads `int(s)` in two steps (`PyLong_FromUnicodeObject`):
+  1. `_PyUnicode_TransformDecimalAndSpaceToASCII` -> `toAscii`: a character below U+007F is kept; any other character
+     becomes a blank when `str.isspace()` holds for it, the ASCII digit of its value when it is a Unicode decimal digit
+     (general category Nd), and otherwise `?` -- and the text is cut there;
+  2. `PyLong_FromString` on the ASCII text -> `signedInt (dropSpace _)`: skip `\t \n \v \f \r` and blank, an optional
+     sign, digits with single `_` between digits, trailing blanks; more than 4300 digits is a ValueError.
+So U+001C..U+001F (for which `isspace` holds, but which step 1 keeps and step 2 does not skip) are NOT skipped, while
+U+0085, U+00A0, U+2028 ... are.  The two tables below are those of the Python that runs the checks (3.12, Unicode
+15.0.0): `str.isspace` and `unicodedata.decimal` over all code points; the C04 harness re-derives both on every run. -/
 
 def isDigit (c : Char) : Bool := '0' ≤ c && c ≤ '9'
 def digitVal (c : Char) : Nat := c.toNat - '0'.toNat
 
-/-- the characters `int()` skips around an ASCII literal: `\t \n \v \f \r` and blank -/
+/-- the characters `PyLong_FromString` skips around an ASCII literal (`Py_ISSPACE`): `\t \n \v \f \r` and blank -/
 def isIntSpace (c : Char) : Bool :=
   c == ' ' || c == '\t' || c == '\n' || c == '\x0b' || c == '\x0c' || c == '\r'
+
+/-- `str.isspace()`: the 29 code points, as 10 inclusive ranges -/
+def pySpaceRanges : List (Nat × Nat) :=
+  [(0x9, 0xD), (0x1C, 0x20), (0x85, 0x85), (0xA0, 0xA0), (0x1680, 0x1680), (0x2000, 0x200A), (0x2028, 0x2029),
+   (0x202F, 0x202F), (0x205F, 0x205F), (0x3000, 0x3000)]
+
+def inRanges : List (Nat × Nat) → Nat → Bool
+  | [], _ => false
+  | p :: r, n => (p.1 ≤ n && n ≤ p.2) || inRanges r n
+
+/-- `c.isspace()` -/
+def isPySpace (c : Char) : Bool := inRanges pySpaceRanges c.toNat
+
+/-- the Unicode decimal digits (Nd) come in 68 runs of ten consecutive code points `zero .. zero + 9` with the values
+`0 .. 9`; these are the zeros -/
+def pyDigitZeros : List Nat :=
+  [0x30, 0x660, 0x6F0, 0x7C0, 0x966, 0x9E6, 0xA66, 0xAE6, 0xB66, 0xBE6, 0xC66, 0xCE6, 0xD66, 0xDE6, 0xE50,
+   0xED0, 0xF20, 0x1040, 0x1090, 0x17E0, 0x1810, 0x1946, 0x19D0, 0x1A80, 0x1A90, 0x1B50, 0x1BB0, 0x1C40,
+   0x1C50, 0xA620, 0xA8D0, 0xA900, 0xA9D0, 0xA9F0, 0xAA50, 0xABF0, 0xFF10, 0x104A0, 0x10D30, 0x11066, 0x110F0,
+   0x11136, 0x111D0, 0x112F0, 0x11450, 0x114D0, 0x11650, 0x116C0, 0x11730, 0x118E0, 0x11950, 0x11C50, 0x11D50,
+   0x11DA0, 0x11F50, 0x16A60, 0x16AC0, 0x16B50, 0x1D7CE, 0x1D7D8, 0x1D7E2, 0x1D7EC, 0x1D7F6, 0x1E140, 0x1E2F0,
+   0x1E4F0, 0x1E950, 0x1FBF0]
+
+def digitIn : List Nat → Nat → Option Nat
+  | [], _ => none
+  | z :: r, n => if z ≤ n ∧ n < z + 10 then some (n - z) else digitIn r n
+
+/-- `unicodedata.decimal(c, None)` = `int(c)` for a single character -/
+def pyDigitVal (c : Char) : Option Nat := digitIn pyDigitZeros c.toNat
+
+def asciiOfDigit : Option Nat → Option Char
+  | none => none
+  | some d => some (Nat.digitChar d)
+
+/-- what step 1 writes for one character; `none` = not convertible -/
+def asciiOf (c : Char) : Option Char :=
+  if c.toNat < 127 then some c
+  else if isPySpace c then some ' '
+  else asciiOfDigit (pyDigitVal c)
+
+def toAsciiStep (rest : Str) : Option Char → Str
+  | none => ['?']
+  | some a => a :: rest
+
+/-- `_PyUnicode_TransformDecimalAndSpaceToASCII` (ASCII texts are returned unchanged) -/
+def toAscii : Str → Str
+  | [] => []
+  | c :: r => toAsciiStep (toAscii r) (asciiOf c)
 
 def dropSpace : Str → Str
   | [] => []
@@ -73,8 +131,11 @@ def signedInt : Str → Option Int
     else if c = '+' then finishInt false (startDigits r)
     else finishInt false (startDigits (c :: r))
 
-/-- `int(s)` for ASCII `s`: `some v`, or `none` for ValueError (which `_int` turns into `None`) -/
-def pyInt (s : Str) : Option Int := signedInt (dropSpace s)
+/-- step 2 alone: `int(s)` for a text that step 1 leaves unchanged (every character below U+007F) -/
+def pyIntAscii (s : Str) : Option Int := signedInt (dropSpace s)
+
+/-- `int(s)` for any `s`: `some v`, or `none` for ValueError (which `_int` turns into `None`) -/
+def pyInt (s : Str) : Option Int := pyIntAscii (toAscii s)
 
 /-! ### data -/
 
